@@ -52,11 +52,26 @@ WF(r) == /\ r.m \in {"sand", "plain", "sys"}
             /\ \A p \in DOMAIN fs : p = <<>> \/ (Front(p) \in DOMAIN fs /\ fs[Front(p)].k = "dir")
          /\ WFsp(SpOf(r))
 
-(* ---- where a system call's path lands (sys records) ---- *)
-(* resolved against the tree the case started from; a node the call itself  *)
-(* created is where resolution stops (enoent/slash): that place is judged   *)
-SysLoc(fs, s) == Walk(fs, IF s.abs THEN <<>> ELSE RootLoc, s.c, s.fol, Budget).loc
-SysEffs(fs, c) == {E("sys:" \o c.sys[j].sc, SysLoc(fs, c.sys[j])) : j \in 1..Len(c.sys)}
+(* ---- where the paths of a call's system calls land (sys records) ---- *)
+(* The calls are replayed in order against the tree the case started from:  *)
+(* what a successful unlink / mkdir / creating open did to the tree is      *)
+(* applied before the next path is resolved (io.Open removes a link and     *)
+(* then creates a file under the same name).  A path through a node that is *)
+(* still unknown stops at that node (enoent/slash): that place is judged.   *)
+Under(loc, q) == IsPrefix(loc, q)
+SysStep(fs, s) ==
+  LET loc == Walk(fs, IF s.abs THEN <<>> ELSE RootLoc, s.c, s.fol, Budget).loc
+      parentOK == loc # <<>> /\ Front(loc) \in DOMAIN fs /\ fs[Front(loc)].k = "dir"
+      fs2 == IF s.sc \in {"unlink", "unlinkat", "rmdir"} /\ loc \in DOMAIN fs /\ loc # <<>>
+             THEN [p \in {q \in DOMAIN fs : ~Under(loc, q)} |-> fs[p]]
+             ELSE IF s.sc \in {"mkdir", "mkdirat"} /\ loc \notin DOMAIN fs /\ parentOK THEN fs @@ (loc :> Dir)
+             ELSE IF s.cr /\ loc \notin DOMAIN fs /\ parentOK THEN fs @@ (loc :> File)
+             ELSE fs
+  IN [fs |-> fs2, e |-> E("sys:" \o s.sc, loc)]
+RECURSIVE SysRun(_, _, _)
+SysRun(fs, ss, acc) == IF ss = <<>> THEN acc
+                       ELSE LET st == SysStep(fs, Head(ss)) IN SysRun(st.fs, Tail(ss), acc \cup {st.e})
+SysEffs(fs, c) == SysRun(fs, c.sys, {})
 
 Outside(effs) == {e \in effs : ~Within(e.loc)}
 
